@@ -20,6 +20,7 @@ ScriptReq == ("w1" :> <<P0(1), PingOp>>) @@ ("w2" :> <<SubOp>>)
 ScriptPings == ("w1" :> <<PingOp>>) @@ ("w2" :> <<PingOp, P0(2)>>)
 ScriptReqClose == ("w1" :> <<PingOp>>) @@ ("w2" :> <<SubOp>>) @@ ("c1" :> <<CloseOp>>)
 ScriptMixReq == ("w1" :> <<P1(1)>>) @@ ("w2" :> <<P0(2), SubOp>>)
+ScriptF4 == ("w1" :> <<P2(1)>>) @@ ("w2" :> <<P0(2)>>)
 ScriptMix == ("w1" :> <<P1(1), P2(2)>>) @@ ("w2" :> <<P2(3)>>) @@ ("c1" :> <<CloseOp>>)
 
 ASSUME PrintT(<<"SCRIPT", ToJson(Script)>>)
